@@ -150,4 +150,33 @@ var properties = map[string]*propDef{
 			return u
 		}()},
 	},
+	"C05": {
+		Level: "exploration",
+		Rule: "engine c05-seq: rapid-generated histories of open(subject, authority, time range, ErrIfControlled/ErrOnUnauthorizedOpen) / set-authority / release (incl. double release) over 5 subjects and authority levels with ties, on exclusive and shared controllers, with the iteration order of the gate set permuted from the case's seed; after every step the returned transfer, every open gate's Authorize outcome and LeadingState are compared with the ordered-gate model. engine c05-conc: 2-3 goroutines issue such calls on one controller under the seeded scheduler and the recorded history (calls, outcomes, transfers) is checked with porcupine against the same sequential model. non-trivial = >=2 occurred transfers (seq) / >=10 scheduling decisions (conc); distinct = hash of op kinds+authorities (seq) / scheduler trace hash (conc)",
+		Real:  []string{"cesium/internal/control (Controller, region, Gate) — real code, harness compiled into the package via -overlay", "x/go/control (Transfer, State, Authority), x/go/set"},
+		Stub:  []string{"goroutine scheduler: verifsim/sim at instrumented lock points", "map iteration order: simrt.MapKeys permuted per case"},
+		Assumptions: []string{
+			"model: per region, controller = max authority, ties to the earliest successful open; a transfer is reported iff the controller or the controller's authority changes; shared mode authorises every gate whose authority is >= the controller's",
+			"a gate bridging two existing regions, SetAuthority on a released gate and the error kind of a duplicate subject are outside the statement (skipped / accepted as implemented)",
+			"the write-path part of the property (only authorised writes persisted and relayed) is exercised through cesium writers by C20's engine",
+		},
+		RequiredProbes: []string{"transfers_checked", "equal_authority_contenders", "double_release", "history_ops_checked", "yield_lock"},
+		Units: []unit{{
+			Name: "cesium-control", Module: "cesium", Package: "./internal/control", Passes: allPasses,
+			QuickBudget: 20 * time.Second, QuickWorkers: 8, ThoroughBudget: 10 * time.Minute, ThoroughWorkers: 16,
+		}},
+	},
+	"C20": {
+		Level: "exploration",
+		Rule: "cases: 1-2 index groups, 1-2 writers per group (two writers contend for control with drawn authorities; modes persist+stream / stream-only / persist-only), 1-3 streamers (drawn key sets and output buffer sizes, always-ready or sleeping consumers, optional concurrent re-subscribe / disconnect scripts), optional database close under the writers; writers, consumers, controllers run as goroutines under the seeded scheduler with the relay's slow-consumer timer on the virtual clock; evaluations counts schedules; non-trivial = >=40 scheduling decisions; distinct = scheduler trace hash",
+		Real:  cesiumReal, Stub: cesiumStub,
+		Assumptions: []string{
+			"streamers are connected sequentially and the system is allowed to quiesce before the writers start, so 'subscribed for the whole interval' is well defined; completeness is asserted only for streamers with a stable subscription and an always-ready consumer, in runs without stall quanta and without a concurrent database close",
+			"filter oracle: a received series' key must belong to a subscription requested no later than the receipt",
+			"liveness: the run must finish (no deadlock/stall) and the virtual idle time must stay within (frames x streamers x 25ms) + consumer sleeps + 5s",
+			"write-path clause of C05: the content persisted at the end equals exactly the writes reported authorized by persisting writers, and no unauthorized or persist-only write is relayed",
+		},
+		RequiredProbes: []string{"frames_received", "completeness_checked", "unauthorized_write_observed", "resubscribe_or_disconnect_during_writes", "slow_consumer", "persisted_equals_authorized", "yield_chan"},
+		Units: []unit{cesiumUnit("cesium-stream", "c20")},
+	},
 }
